@@ -260,6 +260,8 @@ class Ctx:
                 continue
             if 'got_regex' in m and not re.search(m['got_regex'], str(f['got'])):
                 continue
+            if 'expected_regex' in m and not re.search(m['expected_regex'], str(f['expected'])):
+                continue
             if 'note_regex' in m and not re.search(m['note_regex'], str(f.get('note', ''))):
                 continue
             return k
